@@ -10,6 +10,8 @@
 //	R  select { case v, ok := <-rcv: default: }
 //	C  cancel()
 //	X  close(snd)
+//	s r c x  the same moves NOT followed by synctest.Wait(): the next move meets the pump wherever it is
+//	         (this is how a value is still parked in the input buffer when the cancel arrives)
 //
 // After the plan an epilogue ends the stream (cancel unless cancelled/closed already) and receives until
 // the receive side reports closed (or an attempt would block). Recorded per move: done / blocked / val v /
@@ -31,6 +33,7 @@ import (
 	"fmt"
 	"math/rand"
 	"os"
+	"runtime"
 	"strconv"
 	"testing"
 	"testing/synctest"
@@ -39,10 +42,11 @@ import (
 )
 
 type Step struct {
-	K string `json:"k"`
-	X int    `json:"x,omitempty"`
-	O string `json:"o"`
-	V int    `json:"v,omitempty"`
+	K  string `json:"k"`
+	X  int    `json:"x,omitempty"`
+	O  string `json:"o"`
+	V  int    `json:"v,omitempty"`
+	NW bool   `json:"nw,omitempty"` // this move was NOT followed by synctest.Wait()
 }
 
 type Line struct {
@@ -93,6 +97,10 @@ func runPump(t *testing.T, capacity int, plan string, trace func(Step)) (steps [
 		cancelled, closed, seen, dead := false, false, false, false
 		do := func(k byte) (blocked bool) {
 			st := Step{}
+			if k >= 'a' {
+				st.NW = true
+				k -= 'a' - 'A'
+			}
 			func() {
 				defer func() {
 					if r := recover(); r != nil {
@@ -136,13 +144,15 @@ func runPump(t *testing.T, capacity int, plan string, trace func(Step)) (steps [
 					st.O = "done"
 				}
 			}()
-			synctest.Wait()
+			if !st.NW {
+				synctest.Wait()
+			}
 			rec(st)
 			return st.O == "blocked"
 		}
 		for i := 0; i < len(plan) && !dead; i++ {
 			k := plan[i]
-			if closed && (k == 'S' || k == 'X') {
+			if closed && (k == 'S' || k == 'X' || k == 's' || k == 'x') {
 				continue // a sender neither sends after its close nor closes twice
 			}
 			do(k)
@@ -179,6 +189,23 @@ func plans(n int, f func(string)) {
 		}
 	}
 	rec(make([]byte, 0, n), false, false)
+}
+
+// plans of length n with one or two un-waited moves (lower case), never as the last move
+func racyPlans(n int, f func(string)) {
+	plans(n, func(p string) {
+		b := []byte(p)
+		for i := 0; i+1 < n; i++ {
+			b[i] += 'a' - 'A'
+			f(string(b))
+			for j := i + 1; j+1 < n; j++ {
+				b[j] += 'a' - 'A'
+				f(string(b))
+				b[j] -= 'a' - 'A'
+			}
+			b[i] -= 'a' - 'A'
+		}
+	})
 }
 
 func randomPlan(rng *rand.Rand) string {
@@ -330,6 +357,18 @@ func TestC08(t *testing.T) {
 			plans(n, func(p string) { pump("exhaustive", capacity, p) })
 		}
 	}
+	// un-waited moves; one P so that the driver reaches the next move before the woken pump runs
+	racyLen := 4
+	if thorough {
+		racyLen = 6
+	}
+	prev := runtime.GOMAXPROCS(1)
+	for capacity := 0; capacity <= 3; capacity++ {
+		for n := 2; n <= racyLen; n++ {
+			racyPlans(n, func(p string) { pump("racy", capacity, p) })
+		}
+	}
+	runtime.GOMAXPROCS(prev)
 	for k := 0; k < nRandom; k++ {
 		capacity := rng.Intn(4)
 		plan := randomPlan(rng) // drawn even when skipped: the stream of random numbers must not depend on VERIF_FROM
